@@ -57,6 +57,64 @@ fn fork_first_visit(p: &str) -> String {
     )
 }
 
+/// Runs `code` in a fresh VM (strict or permissive) and returns, per offset, the largest visit
+/// count seen in any stored state, plus whether execute() returned Ok.
+fn run_vm(code: &[u8], permissive: bool) -> (Vec<usize>, bool, usize) {
+    let mut config = Config::default();
+    config.permissive_errors = permissive;
+    let stream = InstructionStream::try_from(code).expect("disassembles");
+    let mut vm = VM::new(stream, config, LazyWatchdog.in_rc()).expect("vm");
+    let ok = vm.execute().is_ok();
+    let mut visits = vec![0usize; code.len()];
+    for st in vm.stored_states() {
+        for ip in 0..code.len() as u32 {
+            let c = st.visited_instructions().visit_count(ip).unwrap_or(0);
+            visits[ip as usize] = visits[ip as usize].max(c);
+        }
+    }
+    (visits, ok, vm.stored_states().len())
+}
+
+fn hex(b: &[u8]) -> String {
+    b.iter().map(|x| format!("{x:02x}")).collect()
+}
+
+/// JUMP to (high << 32) + 8 where offset 8 is a JUMPDEST followed by an SSTORE to slot 7.
+/// The EVM rejects the jump for high != 0; executing the SSTORE means the target was truncated.
+fn jump_target_bits(p: &str) -> String {
+    let high = (param(p, "high").unwrap_or(1) & 0xff) as u8;
+    let code = [0x64u8, high, 0, 0, 0, 8, 0x56, 0x00, 0x5b, 0x60, 1, 0x60, 7, 0x55, 0x00];
+    let (visits, ok, states) = run_vm(&code, true);
+    format!(
+        "{{\"violates\": {}, \"sstore_visits\": {}, \"execute_ok\": {}, \"states\": {}, \"code\": \"{}\"}}",
+        high != 0 && visits[13] > 0, visits[13], ok, states, hex(&code)
+    )
+}
+
+/// PUSH1 0 PUSH1 0 <halting opcode> PUSH1 1 PUSH1 7 SSTORE STOP: nothing after the halting opcode may execute.
+fn halting_opcode(p: &str) -> String {
+    let op = (param(p, "opcode").unwrap_or(0) & 0xff) as u8;
+    let code = [0x60u8, 0, 0x60, 0, op, 0x60, 1, 0x60, 7, 0x55, 0x00];
+    let (visits, ok, states) = run_vm(&code, false);
+    format!(
+        "{{\"violates\": {}, \"after_visits\": {}, \"sstore_visits\": {}, \"execute_ok\": {}, \"states\": {}, \"code\": \"{}\"}}",
+        visits[5] > 0 || visits[9] > 0, visits[5], visits[9], ok, states, hex(&code)
+    )
+}
+
+/// A conditional / unconditional jump to a non-existent target in permissive mode must not, by itself,
+/// make execution fail:  PUSH1 1 PUSH1 0xff JUMPI STOP   /   PUSH1 0xff JUMP.
+fn permissive_bad_jump(p: &str) -> String {
+    let jumpi = param(p, "jumpi").unwrap_or(1) == 1;
+    let code: Vec<u8> = if jumpi { vec![0x60, 1, 0x60, 0xff, 0x57, 0x00] } else { vec![0x60, 0xff, 0x56] };
+    let (_, ok_permissive, _) = run_vm(&code, true);
+    let (_, ok_strict, _) = run_vm(&code, false);
+    format!(
+        "{{\"violates\": {}, \"permissive_ok\": {}, \"strict_ok\": {}, \"code\": \"{}\"}}",
+        !ok_permissive || ok_strict, ok_permissive, ok_strict, hex(&code)
+    )
+}
+
 fn main() {
     let args: Vec<String> = std::env::args().collect();
     if args.len() < 3 {
@@ -68,6 +126,9 @@ fn main() {
     let p = args[2].clone();
     let r = panic::catch_unwind(move || match name.as_str() {
         "fork_first_visit" => fork_first_visit(&p),
+        "jump_target_bits" => jump_target_bits(&p),
+        "halting_opcode" => halting_opcode(&p),
+        "permissive_bad_jump" => permissive_bad_jump(&p),
         _ => "{\"violates\": false, \"outcome\": \"unknown scenario\"}".to_string(),
     });
     match r {
